@@ -100,7 +100,7 @@ def _c13(fx, col):
 
 
 prop('C13', 'operations are total',
-     [_c13, P.rule_loop_class, A.rule_lock_poison, A.rule_lock_no_user_code],
+     [_c13, P.rule_loop_class, A.rule_lock_poison, A.rule_lock_no_user_code, A.rule_write_reply, T.rule_panic_new],
      'Decides: every panic-capable terminator reachable from the API roots under the Hybrid strategies (calls into '
      'core::panicking, Option/Result unwrap/expect, assert!/debug_assert!/unreachable!, compiler-inserted bounds / overflow / '
      'division / pointer checks) is matched by a line-free signature to a discharge, and each discharge is itself a checked '
@@ -245,7 +245,7 @@ def _ord_c04(fx, col):
 
 
 prop('C04', 'writes totally ordered, each old value handed back once',
-     [_ord_c04, O.rule_rmw_only, A.rule_store_is_swap, A.rule_swap_shape, L.rule_ledger, L.rule_bypass, R.rule_pay_before_release, A.rule_cas_shape],
+     [_ord_c04, O.rule_rmw_only, A.rule_store_is_swap, A.rule_swap_shape, L.rule_ledger, L.rule_bypass, R.rule_pay_before_release, A.rule_cas_shape, A.rule_write_reply],
      'Decides: the container is exactly one atomic variable and every mutation is a single RMW on it, so the write order is '
      'that variable\'s modification order (RMW-ONLY); store = drop(swap) (STORE-IS-SWAP); one count leaves the cell per '
      'successful write and per destruction on every path (LEDGER for swap / compare_and_swap / into_inner / Drop), into_inner '
@@ -254,7 +254,7 @@ prop('C04', 'writes totally ordered, each old value handed back once',
      'Nothing about histories (given RMW-ONLY the order is the hardware coherence order of the one AtomicPtr: trusted).')
 
 prop('C05', 'compare_and_swap replaces iff the stored pointer equals current',
-     [A.rule_cas_shape, A.rule_asraw_siblings, L.rule_ledger, R.rule_pay_before_release, K.rule_refcnt_siblings, A.rule_lock_span],
+     [A.rule_cas_shape, A.rule_asraw_siblings, L.rule_ledger, R.rule_pay_before_release, K.rule_refcnt_siblings, A.rule_lock_span, A.rule_write_reply],
      'Decides: per iteration a fresh load; the verdict is pointer equality of the loaded value and `current`; the exchange '
      'expects `current` and installs `new`; every returned protection is the one the verdict was taken on; `new` is forgotten '
      'only on success; `current` stays alive across the loop (CAS-SHAPE); counts balance on both outcomes of both strategy '
@@ -263,7 +263,7 @@ prop('C05', 'compare_and_swap replaces iff the stored pointer equals current',
      'A-B-A and competing-writer behaviour under interleavings (given by the hardware CAS on the one cell).')
 
 prop('C06', 'rcu is an atomic read-modify-write',
-     [A.rule_rcu_shape, A.rule_cas_shape, L.rule_ledger],
+     [A.rule_rcu_shape, A.rule_cas_shape, L.rule_ledger, A.rule_write_reply],
      'Decides RCU-SHAPE: the value passed to f and the `current` of the exchange are the same guard; f\'s result can reach '
      'nothing but the `new` argument (so a discarded attempt is released by the failure path of compare_and_swap and never '
      'visible); retry only on reported interference and with the freshly returned value; the result is the replaced value; '
@@ -300,7 +300,7 @@ def _load_freshness(fx, col):
 
 
 prop('C16', 'Cache returns a current-or-newer value and retains at most one old value',
-     [A.rule_cache_shape, _load_freshness, L.rule_ledger],
+     [A.rule_cache_shape, _load_freshness, L.rule_ledger, A.rule_write_reply],
      'Decides CACHE-SHAPE: one cached field and no interior mutability; Cache::load (and Access for Cache, MapCache::load) '
      'reach revalidate on every path; the reload is control dependent on the UNEQUAL outcome of comparing the cached pointer '
      'with a load of the same container\'s cell; only that reload writes the cached value and the old one is dropped there; '
@@ -320,7 +320,7 @@ prop('C17', 'Access / Map projections',
      'Projections supplied by the user.')
 
 prop('C20', 'serde support is transparent',
-     [A.rule_serde_shape, L.rule_ledger],
+     [A.rule_serde_shape, L.rule_ledger, A.rule_serde_module],
      'Decides SERDE-SHAPE: serialize = one load, then T::serialize(&*guard, serializer) with the caller\'s serializer, result '
      'returned unchanged, no other serde call; deserialize = T::deserialize(d)? moved into Self::from with no clone/load on '
      'the way (single reference), requiring only S: Default.',
@@ -329,7 +329,7 @@ prop('C20', 'serde support is transparent',
 
 
 prop('C19', 'thread-safety markers follow the pointee',
-     [TL.rule_auto_trait_matrix, TL.rule_no_unsafe_auto_impl, TL.rule_witnesses],
+     [TL.rule_auto_trait_matrix, TL.rule_no_unsafe_auto_impl, TL.rule_witnesses, TL.rule_strategy_sync],
      'Decides the property as stated, by rustc\'s trait solver, on a generated matrix: every public wrapper (container, guard, '
      'caches, maps, map guards, access guards, Constant, DynGuard) x pointer kind (Arc, Option<Arc>, Rc, Option<Rc>, Weak, '
      'rc::Weak) x pointee class (Send+Sync, Send only, Sync only, neither) x strategy. Oracle written from the property text: '
